@@ -69,9 +69,12 @@ def main(argv):
             if "revert" in m:
                 rc, out = sh("git", "-C", wt, "revert", "--no-commit", m["revert"])
             else:
-                rc, out = sh("git", "-C", wt, "apply", m["patch"])
-                if rc:      # (written against an earlier fix: commit; the surrounding lines moved)
-                    rc, out = sh("git", "-C", wt, "apply", "--3way", m["patch"])
+                # 3-way first: it locates the hunks through the blobs the patch was written against. (A plain apply searches for the context lines
+                # anywhere in the file and has put hunks meant for UdpInverterProtocol into the look-alike lines of TcpInverterProtocol once a fix:
+                # commit had changed the former.) Without the blobs git falls back to the plain application by itself.
+                rc, out = sh("git", "-C", wt, "apply", "--3way", m["patch"])
+                if rc:
+                    sh("git", "-C", wt, "reset", "--hard", "-q", "HEAD")
             if rc:
                 print(f"{m['name']}: patch does not apply: {out[-200:]}")
                 results.append({"mutant": m["name"], "applies": False})
